@@ -47,6 +47,8 @@ const c10Enum = "[\n\t1, // one\n\t\"two\", /* second */\n\ttrue\n]"
 const c10Regex = `/ab[cd]{2}\d+/`
 const c10Doc = `{"a": [1, 2, {"b": null}], "c": "dé"}`
 
+var c10Docs = map[string]string{"D1": c10Doc, "D2": `{"a": tru}`, "D3": `123`, "D4": `"unterminated`}
+
 type c10Sym struct {
 	Obj string `json:"obj"`
 	Op  string `json:"op"`
@@ -59,6 +61,9 @@ func c10Alphabet() []c10Sym {
 	for _, o := range []string{"S1", "S2", "S3", "S4", "S5", "S6"} {
 		for _, op := range []string{"Check", "Example", "GetAST", "OpenAPI", "Dereference", "Len", "Used"} {
 			if op == "Dereference" && o != "S1" && o != "S6" {
+				continue
+			}
+			if (op == "Used" || op == "Len") && (o == "S3" || o == "S4" || o == "S5" || o == "S2") {
 				continue
 			}
 			out = append(out, c10Sym{o, op})
@@ -78,6 +83,8 @@ func c10Alphabet() []c10Sym {
 	for _, op := range []string{"Check", "Len", "Lexemes"} {
 		out = append(out, c10Sym{"D1", op})
 	}
+	// more JSON documents: one that fails inside a literal, scalar roots ending at end of text
+	out = append(out, c10Sym{"D2", "Check"}, c10Sym{"D2", "Len"}, c10Sym{"D3", "Check"}, c10Sym{"D3", "Lexemes"}, c10Sym{"D4", "Check"}, c10Sym{"D4", "Len"})
 	return out
 }
 
@@ -87,6 +94,7 @@ type c10Objects struct {
 	e *enum.Enum
 	r *jregex.RSchema
 	d schema.Document
+	docs map[string]schema.Document
 }
 
 // c10Result: a returned value kept by the "caller", with the snapshot taken when
@@ -225,10 +233,14 @@ func c10Exec(objs *c10Objects, sym c10Sym) (res c10Result) {
 				l, err := objs.r.Len()
 				set(func() string { return fmt.Sprint(l) + "|" + errSnap(err) })
 			}
-		case "D1":
-			if objs.d == nil {
-				objs.d = jdoc.New("d", c10Doc)
+		case "D1", "D2", "D3", "D4":
+			if objs.docs == nil {
+				objs.docs = map[string]schema.Document{}
 			}
+			if objs.docs[sym.Obj] == nil {
+				objs.docs[sym.Obj] = jdoc.New("d", c10Docs[sym.Obj])
+			}
+			objs.d = objs.docs[sym.Obj]
 			switch sym.Op {
 			case "Check":
 				err := objs.d.Check()
@@ -237,7 +249,7 @@ func c10Exec(objs *c10Objects, sym c10Sym) (res c10Result) {
 				l, err := objs.d.Len()
 				set(func() string { return fmt.Sprint(l) + "|" + errSnap(err) })
 			case "Lexemes":
-				d := jdoc.New("d", c10Doc)
+				d := jdoc.New("d", c10Docs[sym.Obj])
 				var b strings.Builder
 				for i := 0; i < 1000; i++ {
 					lex, err := d.NextLexeme()
